@@ -5,7 +5,10 @@ from .common import TRUSTED, ASSUMPTIONS, LEVEL_NOTE, TECHNIQUE
 
 LEVEL = "proof"
 THEOREMS = ["C01_inUnit_iff", "C01_simplex_accept_iff", "C01_opinion_accept_iff", "C01_bop_accept_iff", "C01_accepts_wf",
-            "C01_rejects_special", "C01_vacuous_iff", "C01_dogmatic_iff"]
+            "C01_rejects_special", "C01_vacuous_iff", "C01_dogmatic_iff",
+            "F_tryNew_rejects_special", "F32_tryNew_rejects_special", "F_bop_tryNew_rejects_special",
+            "Guards_isZero_eq_ulpsEq", "Guards_isOne_eq_ulpsEq", "Guards_inUnit_eq_isInRange"]
+EXTRA_MODULES = [("SLV.Props.FloatSpecials", "F"), ("SLV.Props.Guards", "Guards_")]
 RULE = ("simplex_new / opinion_new / bsimplex_new / bop_new through try_new, new, TryFrom tuples and into_opinion: well-formed dyadic "
         "and float tuples; each constraint violated singly (±k ulps k=0..8 around 0 and 1 for every component and for the sums, and by "
         "visible margins) and jointly; NaN, ±inf, -0.0, subnormals; n=1..4; families A/M/D/N; f32+f64; each tuple is run through "
@@ -16,7 +19,10 @@ LEVEL_TEXT = ("Kernel-checked iff-characterisation of acceptance for every n and
               "accepted ⇔ all components finite, in [-eps, 1+4eps], sums in [1-2eps, 1+4eps]; stored unchanged; label of the first failing "
               "check; vacuous/dogmatic predicates. Tied to the real constructors (all entry points, families, precisions) by exact "
               "Boolean agreement of accept/reject with the bit-level twin and the value-level model, plus the theorem's predicates on the "
-              "implementation's answers. Rounding of the float sum inside the ±n·eps band is covered by the tie only.")
+              "implementation's answers. In addition, at the bit-level float semantics (Lean's kernel-visible IEEE model of Float/Float32, "
+              "the twin of the Rust f64/f32 code) every NaN or infinity in any position is rejected, for every n (FloatSpecials), and the "
+              "closed-form guards of the exact model are proved equal to the generic ulps_eq definition (Guards). Rounding of the float sum "
+              "inside the ±n·eps band is covered by the tie only.")
 
 
 def nontrivial(r):
